@@ -223,9 +223,40 @@ def io_fault(fault: int, point: int, second: int) -> bool:
     return hx.check(inputs, (why,), ("",), "after the fault(s) a connecting peer must complete CER/CEA and be served as on a fresh node")
 
 
+def reader_survives(kind: int, defect: int, raises: bool, st: int) -> bool:
+    """
+    pre: 0 <= kind < 18 and 0 <= defect < 5 and st == P["st"]
+    post: _
+    """
+    hx.begin()
+    from harness import C07
+    k = C07.STEP_KINDS[hx.concretize_range(kind, 0, len(C07.STEP_KINDS))]
+    d = C07.DEFECTS[hx.concretize_range(defect, 0, len(C07.DEFECTS))]
+    stv = C07.STATES[P["st"]]
+    inputs = (kind, defect, raises, st)
+    try:
+        b = B.Bench(n_peers=1, stats=True)
+        n, p, app = b.node, b.peers[0], b.apps[0]
+        c, s = b.make_ready(p)
+        app.raise_in_handler = bool(raises)
+        app.sync_answer = {"ccr_sync_rc": "rc", "ccr_sync_no_rc": "no_rc", "undef_req_2oh_sync": "rc"}.get(k)
+        c.state = stv
+        msg = C07.mk(k, 71, 72, d)
+    except Exception as e:
+        return hx.fail(inputs, "harness: %s" % type(e).__name__)
+    try:
+        b.inject(c, msg)                 # = the body of the connection's read thread for one decoded message
+        died = ""
+    except Exception as e:
+        died = "%s: %s" % (type(e).__name__, str(e)[:60])
+    return hx.check(inputs, (died,), ("",), "an exception escaping the dispatch of a decoded message ends the connection's read thread")
+
+
 def specs(tier, seed, carve):
     q = tier == "quick"
-    out = []
+    out = [dict(id="reader_survives/state%d" % st, fn="reader_survives", params={"st": st}, timeout=900,
+                bound="connection state %d: one decoded message of 18 kinds (typed/untyped requests and answers, incl. repeated Origin-Host) x 5 defect classes x handler raises/returns" % st)
+           for st in range(7)]
     for nreq in ((1, 2) if q else (1, 2, 3)):
       for limit in (0, 1, 2):
         out.append(dict(id="threading_app/%d/limit%d" % (nreq, limit), fn="threading_app", params={"nreq": nreq, "limit": limit}, timeout=900 if nreq < 3 else 6000,
